@@ -646,9 +646,16 @@ func solveAll(qs []*Query, reg *Registry, dir string, timeout, seed int, agree b
 						continue
 					}
 				}
+				// what other paths with the same SLICED query may reuse is the answer to the sliced
+				// query only - never an answer obtained from this path's full assumption list
+				var slicedRes SolveResult
+				slicedSet := false
 				finish := func() {
 					if !seenBefore {
 						ent.res = q.Result
+						if slicedSet {
+							ent.res = slicedRes
+						}
 						ent.file = q.File
 						close(ent.done)
 					}
@@ -667,7 +674,7 @@ func solveAll(qs []*Query, reg *Registry, dir string, timeout, seed int, agree b
 				}
 				r, _ := raceSolve(fn, 3, seed, []string{first}, false)
 				if r.Status != "sat" && r.Status != "unsat" {
-					r, _ = raceSolve(fn, timeout, seed, []string{"z3-new", "cvc5", "z3"}, false)
+					r, _ = raceSolve(fn, timeout, seed, []string{"z3-new", "cvc5", "cvc5-nomodel", "z3"}, false)
 				} else if agree {
 					other := "cvc5"
 					if first == "cvc5" {
@@ -682,11 +689,12 @@ func solveAll(qs []*Query, reg *Registry, dir string, timeout, seed int, agree b
 					}
 				}
 				if q.Kind == "prove" && r.Status != "unsat" && len(path) != len(full) {
+					slicedRes, slicedSet = r, true
 					// the slice may have dropped a needed fact: retry with the whole path
 					q.Lines = append(reg.Relevant(full, q.Goal.S, false), full...)
 					if fn2, err := writeQuery(dir, q, false); err == nil {
 						q.File = fn2
-						r2, _ := raceSolve(fn2, timeout, seed, []string{"z3-new", "cvc5", "z3"}, false)
+						r2, _ := raceSolve(fn2, timeout, seed, []string{"z3-new", "cvc5", "cvc5-nomodel", "z3"}, false)
 						if r2.Status == "unsat" || r.Status != "sat" {
 							r = r2
 						}
